@@ -79,6 +79,9 @@ pub enum Reader {
     Deferred(usize),
     /// drop the receive handle once this many bytes have been read
     DropAfter(usize),
+    /// release in lumps: only once this many bytes are held, and the rest at the end of the body — followed at
+    /// once by the drop of the handle
+    Lump(usize),
 }
 
 #[derive(Clone, Debug, Serialize, Deserialize)]
@@ -390,7 +393,7 @@ pub fn gen_pair(tapes: &[Vec<u32>], focus: Focus) -> PairCase {
     if focus == Focus::Faults {
         match t.weighted(&[5, 2, 2, 1]) {
             0 => {
-                fault = Some(Fault { c2s: t.bool(), at: t.below(3000) + if t.chance(1, 3) { t.below(60000) } else { 0 }, kind: *t.pick(&[CutKind::Eof, CutKind::ReadErr, CutKind::WriteErr, CutKind::WriteZero]) });
+                fault = Some(Fault { c2s: t.bool(), at: t.below(3000) + if t.chance(1, 3) { t.below(60000) } else { 0 }, kind: *t.pick(&[CutKind::Eof, CutKind::ReadErr, CutKind::ReadErrEof, CutKind::WriteErr, CutKind::WriteZero]) });
             }
             1 => {
                 let at = t.below(60);
@@ -404,6 +407,21 @@ pub fn gen_pair(tapes: &[Vec<u32>], focus: Focus) -> PairCase {
             }
             2 => ops.push(ConnOp { side: Side::Server, after_events: t.below(60), cmd: ConnCmd::AbruptShutdown(t.below(14) as u32), gap: 0 }),
             _ => ops.push(ConnOp { side: if t.bool() { Side::Client } else { Side::Server }, after_events: t.below(60), cmd: ConnCmd::DropConnection, gap: 0 }),
+        }
+    }
+    // one reader that releases capacity in lumps (and the rest at the very end, just before it lets go of the handle);
+    // the lump never exceeds half of the windows in force, so the transfer cannot stall on it
+    let windows_change = ops.iter().any(|o| matches!(o.cmd, ConnCmd::SetInitialWindow(_) | ConnCmd::SetTargetWindow(_)));
+    if !windows_change && !reqs.is_empty() && t.chance(1, 3) {
+        let k = t.below(reqs.len());
+        let server_reads = t.bool();
+        let cfg = if server_reads { &scfg } else { &ccfg };
+        let w = (cfg.initial_window.unwrap_or(65535) as usize).min(cfg.conn_window.unwrap_or(65535) as usize).min(65535);
+        let lump = Reader::Lump(1 + t.below((w / 2).max(1)));
+        if server_reads {
+            reqs[k].req_reader = lump;
+        } else {
+            reqs[k].resp_reader = lump;
         }
     }
     let mut t2 = Tape::new(&tapes[1]);
@@ -681,6 +699,7 @@ async fn read_body(mut rs: RecvStream, reader: Reader, key: u32, side: Side, log
     let from = side.other();
     let m = msg_id(key, from);
     let mut off = 0u64;
+    let mut held = 0usize;
     loop {
         if let Reader::DropAfter(n) = reader {
             if off as usize >= n {
@@ -700,6 +719,15 @@ async fn read_body(mut rs: RecvStream, reader: Reader, key: u32, side: Side, log
                 if let Reader::Deferred(d) = reader {
                     yield_n(d).await;
                 }
+                if let Reader::Lump(l) = reader {
+                    held += n;
+                    if held >= l {
+                        let r = rs.flow_control().release_capacity(held);
+                        log.push(side, key, Api::Released { n: held, err: r.err().map(|e| e.to_string()) });
+                        held = 0;
+                    }
+                    continue;
+                }
                 let r = rs.flow_control().release_capacity(n);
                 log.push(side, key, Api::Released { n, err: r.err().map(|e| e.to_string()) });
             }
@@ -709,6 +737,10 @@ async fn read_body(mut rs: RecvStream, reader: Reader, key: u32, side: Side, log
             }
             None => {
                 log.push(side, key, Api::RecvDataEnd);
+                if held > 0 {
+                    let r = rs.flow_control().release_capacity(held);
+                    log.push(side, key, Api::Released { n: held, err: r.err().map(|e| e.to_string()) });
+                }
                 break;
             }
         }
@@ -1394,6 +1426,8 @@ pub struct PairRun {
     /// connection still held one of its locks
     pub nested: u64,
     pub lock_held: Vec<String>,
+    /// stream records kept although the id map no longer points at them, per side: (stream id, handles)
+    pub orphans: Vec<(Side, Vec<(u32, usize)>)>,
 }
 
 pub fn run_pair(case: &PairCase) -> PairRun {
@@ -1595,6 +1629,7 @@ pub fn run_sim_cap(case: &PairCase, raw: Option<(Side, Rc<crate::sim_raw::RawSpe
             heap_end: crate::heapmeter::live(),
             nested: exec.nested_polls(),
             lock_held: lock_held.borrow().clone(),
+            orphans: ctx.probes.borrow().iter().map(|(s, p)| (*s, p.orphans().unwrap_or_default())).collect(),
         };
         teardown_all(exec, ctx, &mut run);
         crate::heapmeter::end_case();
@@ -1615,6 +1650,7 @@ pub fn run_sim_cap(case: &PairCase, raw: Option<(Side, Rc<crate::sim_raw::RawSpe
         heap_end: crate::heapmeter::live(),
         nested: exec.nested_polls(),
         lock_held: lock_held.borrow().clone(),
+        orphans: ctx.probes.borrow().iter().map(|(s, p)| (*s, p.orphans().unwrap_or_default())).collect(),
     };
     teardown_all(exec, ctx, &mut run);
     crate::heapmeter::end_case();
